@@ -51,6 +51,7 @@ Definition js_stmt_text (fm : bool) (en : env) (props : list string) (s : stmt) 
     js_leaf (fclass f) (pp_js (js_raw_or en o (to_js fm en o))) fm ++ "." ++ nth pid (ftable f) "" ++ " = " ++ pp_js (to_js fm en v)
   | SSetThe k i v => pp_js (to_js fm en (EThe k i)) ++ " = " ++ pp_js (to_js fm en v)
   | SSetAcc _ _ _ => ""      (* outside the JavaScript theorems, like EAcc *)
+  | SSetMenu pid it mn v => pp_js (to_js fm en (EMenu pid it mn)) ++ " = " ++ pp_js (to_js fm en v)
   end.
 
 Definition js_ok_s (en : env) (props : list string) (s : stmt) : Prop :=
@@ -67,6 +68,7 @@ Definition js_ok_s (en : env) (props : list string) (s : stmt) : Prop :=
   | SSetObj f _ o v => assignable f = true /\ js_ok en o /\ js_ok en v
   | SSetThe k i v => js_ok en (EThe k i) /\ js_ok en v
   | SSetAcc _ _ _ => False
+  | SSetMenu pid it mn v => js_ok en (EMenu pid it mn) /\ js_ok en v
   end.
 
 Lemma js_args_text fm en l : js_ok_args en l -> forall pc ind,
@@ -81,7 +83,15 @@ Qed.
 Theorem js_stmt_line fm en props s : js_ok_s en props s -> forall pc ind,
   gen_js (reify_s en props pc s) ind fm = js_line ind (js_stmt_text fm en props s).
 Proof.
-  destruct s as [t e|f args|f args|fam pid o v|tk ti tv|an ao av]; intros Hok pc ind; [| | | | |destruct Hok].
+  destruct s as [t e|f args|f args|fam pid o v|tk ti tv|an ao av|mp mi mm mv]; intros Hok pc ind; [| | | | |destruct Hok|].
+  6:{ destruct Hok as (Hk & Hv). cbn [reify_s js_stmt_text].
+      pose proof (gen_js_is_pp fm en (EMenu mp mi mm) Hk pc ind) as Hl. cbn [reify_e] in Hl.
+      assert (Hl' : forall p1 p2 l r ls rs, gen_js l ind fm = ls -> gen_js r ind fm = rs ->
+                   gen_js (Stmt p1 (Binary "assign" p2 l r)) ind fm = js_line ind (ls ++ " = " ++ rs)).
+      { intros p1 p2 l r ls rs E1 E2. cbn [gen_js]. change (String.eqb "assign" "assign") with true. cbn iota. rewrite E1, E2.
+        unfold js_line. reflexivity. }
+      erewrite Hl'; [reflexivity | | apply (gen_js_is_pp fm en mv Hv)].
+      etransitivity; [|exact Hl]. cbn [gen_js]. reflexivity. }
   5:{ destruct Hok as (Hk & Hv). cbn [reify_s js_stmt_text].
       pose proof (gen_js_is_pp fm en (EThe tk ti) Hk (pc + zlen (compile_e tv))%Z ind) as Hl. cbn [reify_e] in Hl.
       cbn [gen_js]. change (String.eqb "assign" "assign") with true. cbn iota. rewrite Hl, (gen_js_is_pp fm en tv Hv).
